@@ -393,9 +393,15 @@ class ProgramGen:
         args = self._dummy_args()
         text = " ".join(pre + ["function"]) + " %s(%s)" % (name, ", ".join(args))
         if self.p(0.4):
-            text += " result(%s)" % self.env.scalar()
-            if self.p(0.15) and "elemental" not in pre:
-                text += " bind(c)"
+            rv = self.env.scalar()
+            c2 = r.random()
+            if c2 < 0.12 and "elemental" not in pre:
+                text += " result(%s) bind(c)" % rv
+            elif c2 < 0.2 and "elemental" not in pre:
+                # R1229 allows both orders; RESULT is printed first
+                text += " {?suffix-order|bind(c) result(%s)|result(%s) bind(c)?}" % (rv, rv)
+            else:
+                text += " result(%s)" % rv
         self.S("function", text, cid=cid, role="open", flags={"unit_open"})
         self.depth += 1
         self.spec_part(ctx)
@@ -707,7 +713,8 @@ class ProgramGen:
         sep = " "
         text = "common " + parts[0]
         for p in parts[1:]:
-            text += (", " if self.p(0.3) else " ") + p if False else " " + p
+            # the comma in front of a further block is optional and not printed (not a listed canonicalisation)
+            text += ("{?common-block-comma|,| ?}" if self.p(0.2) else "") + " " + p
         self.S("common", text)
 
     def st_equivalence(self, ctx):
@@ -776,7 +783,9 @@ class ProgramGen:
         attrs = r.choice(["", ", pointer", ", optional" if ctx.ukind in ("subroutine", "function") else ", pointer",
                           ", save, pointer" if False else ", pointer"])
         ent = self.env.procname()
-        if "pointer" in attrs and self.p(0.4):
+        if ctx.ukind in ("subroutine", "function") and "pointer" in attrs and self.p(0.25):
+            attrs = r.choice([", intent(in)", ", intent(inout)", ", intent(out)"]) + attrs
+        elif "pointer" in attrs and self.p(0.4):
             ent += " => null()"
         self.S("procdecl", "procedure(%s)%s %s %s" % (iface, attrs, "::" if attrs else "{-::-}", ent))
 
@@ -839,7 +848,9 @@ class ProgramGen:
             # scale factor directly in front of a data edit descriptor: the comma is optional (C1002)
             return "%sp{+,+} %s" % (r.choice(["1", "2", "-1"]), r.choice(["e12.4", "f8.3", "d10.2", "g10.3", "2f6.1"]))
         if c < 0.9:
-            return r.choice(["3Habc", "5HHello", "1Hx", "4H1234"])
+            return r.choice(["3Habc", "5HHello", "1Hx", "4H1234", "3Habc{+,+} /", "2Hxy{+,+} :"])
+        if c < 0.93:
+            return r.choice(["dt", "DT", "dt'abc'(1, 2)", "dt(3)", 'dt"x y"', "2dt'p'"])
         return r.choice(["'text'", '"t2"', "'it''s'", "'a, b'", "'(x)'"])
 
     def fmt_list(self, d=2):
@@ -909,7 +920,9 @@ class ProgramGen:
                     ent += " => null()"
                 elif "allocatable" in cattrs:
                     ent += "(:)"
-                elif self.p(0.3):
+                elif ts.startswith("character") and "*" not in ts and self.p(0.3):
+                    ent += r.choice(["*8", "*(4)", "(2)*3"]) if "dimension" not in cattrs else "*8"
+                elif self.p(0.3) and not ts.startswith("character"):
                     ent += " = " + self.eg.int_lit().split("_")[0]
                 self.S("component", "%s%s :: %s" % (ts, cattrs, ent))
             elif c < 0.85:
